@@ -1365,6 +1365,7 @@ func regObjectOps() {
 		}
 		p := c.in64(op, 0)
 		ob.adds = []addRec{{p64: copy64(p)}}
+		c.dropKept(ob) // the object is used again: what it returned before is no longer watched
 		var r clip.Paths64
 		if ob.kind == "rc" {
 			r = ob.rc.Execute(p)
